@@ -467,4 +467,4 @@ BOUNDS = dict(trees="12 leaves with true declarations (PSD, SelfAdjoint, Unitary
               "A^H A / A^T A / A A^H patterns on the same and on different objects, principal and non-principal slices (slices and index arrays), "
               ".T / .H / Transpose / Adjoint wrappers, nestings", routines="lanczos (n <= 4), arnoldi (n <= 3), eig on Diagonal / Identity / Triangular "
               "(lower, upper) for k <= n, eig(Eigh) on a symbolic 2x2 spectral decomposition", values="all payloads and scalars symbolic")
-BOUNDS["added"] = 'products of an operator with a slice / reordering of itself, off-diagonal blocks whose selectors coincide only after clipping, and declare-after-query sequences in both query orders (the operand answers isa() as before, the copy reports its declaration)'
+BOUNDS["added"] = 'products of an operator with a slice / reordering of itself, off-diagonal blocks whose selectors coincide only after clipping, and declare-after-query sequences in both query orders (the operand answers isa() as before, the copy reports its declaration) Thorough tier: every ordered pair of 14 true-declared leaves under Kronecker / BlockDiag / Sum / Product / scaled sums / transposed products and the four transposing wrappers (1177 trees).'
